@@ -31,6 +31,7 @@ PAIRS = [('export_dict_crv', 'import_dict_crv'), ('export_dict_surf', 'import_di
          ('export_dict_ff', 'import_dict_ff'), ('export_dict_multi_crv', 'import_dict_multi_crv')]
 INPUT_ONLY = {'name', 'id', 'delta', 'reversed'}
 KEY_ATTR = {'size_u': 'ctrlpts_size_u', 'size_v': 'ctrlpts_size_v', 'size_w': 'ctrlpts_size_w', 'points': 'ctrlpts', 'control_points': None}
+DECIDES += (' [ABSTRACT INTERPRETATION, text mode, on the real classes] SM2: export_smesh / export_vmesh write the documented records (dimension; degrees; sizes; knot vectors; (x, y, z, w) per point, u varying first; closing 1), one file per element, and the readers interpreted on that text give the shape back exactly; TX2: the txt / csv control point formats have the documented line / column order and read back exactly, default and custom separators; JR3: export_json -> import_json on single shapes and containers (json modelled as the function it is on plain data), incl. the delta override; JR2 also on B-spline sources.')
 
 
 def site(fi, node=None):
